@@ -156,7 +156,7 @@ Example sample_toml_resolves : exists o v q,
   = Run toml_sample_path o v q /\
   List.length o = List.length (toml_names cat_opt) /\ List.length v = List.length (toml_names cat_vul) /\
   List.length q = List.length (toml_names cat_qa).
-Proof. vm_compute. do 3 eexists. repeat split. Qed.
+Proof. exact sample_toml_resolves_lemma. Qed.
 Print Assumptions sample_toml_resolves.
 
 Example flag_beats_toml_path : exists o v q,
@@ -164,7 +164,7 @@ Example flag_beats_toml_path : exists o v q,
           (Some {| t_path := "./lib"; t_optimizations := rev (doc_names cat_opt);
                    t_vulnerabilities := doc_names cat_vul ++ doc_names cat_vul; t_qa := doc_names cat_qa |}) true
   = Run "src" o v q /\ List.length v = (2 * List.length (doc_names cat_vul))%nat.
-Proof. vm_compute. do 3 eexists. repeat split. Qed.
+Proof. exact flag_beats_toml_path_lemma. Qed.
 Print Assumptions flag_beats_toml_path.
 
 Example unknown_name_example :
@@ -172,18 +172,10 @@ Example unknown_name_example :
   resolve {| arg_path := Some "src"; arg_toml := Some "cfg.toml" |}
           (Some {| t_path := "."; t_optimizations := []; t_vulnerabilities := [" "]; t_qa := [] |}) true
   = PanicExit "Unrecgonized vulnerability".
-Proof.
-  split; [| vm_compute; reflexivity].
-  right. left. exists " ". split; [left; reflexivity | vm_compute; reflexivity].
-Qed.
+Proof. exact unknown_name_example_lemma. Qed.
 Print Assumptions unknown_name_example.
 
 Example casing_example : casing_of "sstore" "SsToRe" /\ forall c, str_to c "SsToRe" = str_to c "sstore".
-Proof.
-  split; [| intro c; reflexivity].
-  repeat first [ apply co_nil | apply co_cons ];
-    first [ apply sl_same | apply (sl_upper "S"%char); vm_compute; split; discriminate
-          | apply (sl_upper "T"%char); vm_compute; split; discriminate
-          | apply (sl_upper "R"%char); vm_compute; split; discriminate ].
-Qed.
+Proof. exact casing_example_lemma. Qed.
 Print Assumptions casing_example.
+
